@@ -42,6 +42,7 @@ std::string gen_uri(Rng &r) {
   u += hosts[r.below(9)];
   double x = (r.next() >> 11) * (1.0 / 9007199254740992.0);
   if (x < 0.3) u += ":" + std::to_string(r.pick(std::vector<int>{5683, 5684, 80, 1, 65535, 61616}));
+  else if (x < 0.36) u += std::string(":") + r.pick(std::vector<const char *>{"65536", "65540", "70000", "99999", "100000", "655350", "655358", "655360", "6553500000", "4294967301", "18446744073709551621", "65535"});   // out of range, also with 65535 as a prefix
   int n = (int)r.range(0, 5);
   if (n || r.chance(0.5)) u += "/";
   for (int i = 0; i < n; i++) { if (i) u += "/"; u += segs[r.below(20)]; }
